@@ -7,6 +7,7 @@
 #define MYTH_CONFIG_H_
 
 #include "config.h"
+#include "myth_verif.h"
 
 //Enable debug
 //#define MYTH_DEBUG 1
